@@ -12,6 +12,7 @@ check, index check) in either build profile".
 All theorems are about the word-level model (Ymq/Model/{Mg64,Limbs,ZmodN,M128}.lean).
 -/
 import Ymq.Lemmas.Mg64
+import Ymq.Lemmas.MillerTz
 import Ymq.Lemmas.ZmodNNew
 import Ymq.Lemmas.M128
 
@@ -80,6 +81,13 @@ theorem mgMul_spec (n ninv x y : Nat) (hn : 0 < n) (hnW : n < W) (hninv : (n * n
     ∃ r, mgMul n ninv x y = some r ∧ r < n ∧ r * W % n = x * y % n := by
   unfold mgMul
   exact mgRedc_spec n ninv (x * y) hn hnW hninv (Nat.mul_lt_mul_of_lt_of_lt hx hy)
+
+/-- `mg_2adic_inv`: for every odd `n` (a `u64`; the statement does not even need `n < 2^64`) the
+loop terminates within the fuel (at most 64 turns), nothing overflows, and the result `v < 2^64`
+satisfies `n·v ≡ -1 (mod 2^64)`. (Loop analysis: Ymq/Lemmas/MillerTz.lean, shared with C06.) -/
+theorem mg2adicInv_spec (n : Nat) (hodd : n % 2 = 1) :
+    ∃ v, mg2adicInv n = some v ∧ v < W ∧ (n * v + 1) % W = 0 :=
+  mg2adicInv_odd n hodd
 
 /-- non-vacuity: the hypotheses are met by n = 7, ninv = 10540996613548315209. -/
 example : (7 * 10540996613548315209 + 1) % W = 0 ∧ mgMul 7 10540996613548315209 3 5 = some 4 ∧
